@@ -15,35 +15,37 @@ Proof.
   - intros x Hx. simpl in Hx. destruct Hx as [<-|[]]. exact H.
 Qed.
 
+Lemma cy_eq (a b : Cy) : ceqb L4 a b = true -> a = b.
+Proof. apply (ceqb_eq L4). Qed.
+
 (* deflation: the ansatz circuit has width 1, the deflation circuit (same gate, same state) is declared on
    2 qubits; overlap probability 1, coefficient 2; as written the term is dropped *)
 Theorem wit_width_facts :
-  exists v d, wit_width = Some v /\ v_defl v = [d]
-    /\ circ_in CycS 2 (pc_gates (composed CycS v))
-    /\ pc_width (v_ansatz v) <> pc_width (padd CycS d (pinv CycS (composed CycS v)))
-    /\ overlap_prob CycS 2 (pc_gates (composed CycS v)) (pc_gates d) = @k1 CycS
-    /\ energy CycS (sv_route CycS) true 2 v = expect_op CycS 2 (v_ham v) (prepared CycS v)
-    /\ energy CycS (sv_route CycS) true 2 v
-       <> @kadd CycS (expect_op CycS 2 (v_ham v) (prepared CycS v)) (defl_spec CycS 2 v)
-    /\ energy CycS (sv_route CycS) false 2 v
-       = @kadd CycS (expect_op CycS 2 (v_ham v) (prepared CycS v)) (defl_spec CycS 2 v).
+  v_defl wit_width_v = [wit_width_d]
+  /\ circ_in CycS 2 (pc_gates (composed CycS wit_width_v))
+  /\ pc_width (v_ansatz wit_width_v) <> pc_width (padd CycS wit_width_d (pinv CycS (composed CycS wit_width_v)))
+  /\ overlap_prob CycS 2 (pc_gates (composed CycS wit_width_v)) (pc_gates wit_width_d) = @k1 CycS
+  /\ energy CycS (sv_route CycS) true 2 wit_width_v = expect_op CycS 2 (v_ham wit_width_v) (prepared CycS wit_width_v)
+  /\ energy CycS (sv_route CycS) true 2 wit_width_v
+     <> @kadd CycS (expect_op CycS 2 (v_ham wit_width_v) (prepared CycS wit_width_v)) (defl_spec CycS 2 wit_width_v)
+  /\ energy CycS (sv_route CycS) false 2 wit_width_v
+     = @kadd CycS (expect_op CycS 2 (v_ham wit_width_v) (prepared CycS wit_width_v)) (defl_spec CycS 2 wit_width_v).
 Proof.
-  eexists. eexists. split; [vm_compute; reflexivity|]. split; [reflexivity|].
-  split; [repeat constructor; simpl; try lia; intros x Hx; simpl in Hx; try contradiction; destruct Hx as [<-|[]]; reflexivity|].
+  split; [reflexivity|].
+  split; [repeat constructor; [intros x _ Hc; exact Hc|intros x Hx; simpl in Hx; destruct Hx as [<-|[]]; reflexivity]|].
   split; [vm_compute; discriminate|].
-  split; [vm_compute; reflexivity|].
-  split; [vm_compute; reflexivity|].
-  split; [apply cy_neq; vm_compute; reflexivity|vm_compute; reflexivity].
+  split; [apply cy_eq; vm_compute; reflexivity|].
+  split; [apply cy_eq; vm_compute; reflexivity|].
+  split; [apply cy_neq; vm_compute; reflexivity|apply cy_eq; vm_compute; reflexivity].
 Qed.
 
 (* reference override: energy_estimation evaluates X|0>, operator_expectation (default argument, the
    solver's reference circuit not used) evaluates |0> *)
 Theorem wit_ref_facts :
-  exists v, wit_ref = Some v /\ v_ref_used v = true
-    /\ expect_op CycS 1 (v_ham v) (prepared CycS v) = @kopp CycS (@k1 CycS)
-    /\ expect_op CycS 1 (v_ham v) (opexp_prepared CycS false v None) = @k1 CycS
-    /\ expect_op CycS 1 (v_ham v) (opexp_prepared CycS true v None) = @kopp CycS (@k1 CycS).
+  v_ref_used wit_ref_v = true
+  /\ expect_op CycS 1 (v_ham wit_ref_v) (prepared CycS wit_ref_v) = @kopp CycS (@k1 CycS)
+  /\ expect_op CycS 1 (v_ham wit_ref_v) (opexp_prepared CycS false wit_ref_v None) = @k1 CycS
+  /\ expect_op CycS 1 (v_ham wit_ref_v) (opexp_prepared CycS true wit_ref_v None) = @kopp CycS (@k1 CycS).
 Proof.
-  eexists. split; [vm_compute; reflexivity|]. split; [reflexivity|].
-  repeat split; vm_compute; reflexivity.
+  split; [reflexivity|]. repeat split; apply cy_eq; vm_compute; reflexivity.
 Qed.
